@@ -52,7 +52,7 @@ func TestVerif_C04_state(t *testing.T) {
 		}
 		rd := &vCCIPReader{NextSeqNumFn: func(cs []cciptypes.ChainSelector) ([]cciptypes.SeqNum, error) {
 			if mode == 1 {
-				return nil, vErr
+				return nil, vErrNext()
 			}
 			out := make([]cciptypes.SeqNum, 0, len(cs)+1)
 			for _, c := range cs {
